@@ -379,4 +379,22 @@ PROPS = {
             "bounded: nothing about interleavings is proved; cooperative scheduling is exercised only through the random event-loop turns of the driver",
         ],
     },
+    "C27": {
+        "category": "other",
+        "harness_modes": ["crosscheck"],
+        "explanation": "Fragment. Proved: the polling loop of QueueManagerConnector.run (statement unit While#0, mechanically extracted) ends only on a listing of the queued jobs "
+        "that does not contain the job id, every listing is requested while the jobs-cache lock is held, and the lock is released when the loop ends; "
+        "SlurmConnector._get_running_jobs asks squeue for ALL the scheduled job ids and for every state in which a job is still in the queue (COMPLETING included), and its "
+        "@cached decorator names the per-connector jobs cache under the constant key (one shared listing per polling interval). NOT decided by proof: that the cache is cleared "
+        "under the lock after a submission (the statements before the loop), the freshness of a cached listing (TTL), _get_output / _get_returncode, undeploy, the other queue "
+        "managers (PBS, Flux). Covered, bounded, by harness/C27.py: the real SlurmConnector over a LocalConnector against fake sbatch / squeue / scontrol / scancel whose queue is "
+        "a directory; 1..6 concurrent jobs with random pending / running / completing times (several ending within one polling interval), slow squeue answers, polling intervals "
+        "0.1..0.3 s; every run() must return after its job left the queue with that job's final output and exit code; a random undeploy must cancel exactly the registered "
+        "jobs. On the pinned tree undeploy always failed (repaired in /repo, 1e124dc).",
+        "assumptions": [
+            "extern contract: _get_running_jobs requires the cache lock to be held; asyncio.sleep; logger",
+            "the While#0 unit takes `self`, `location`, `job_id` as parameters: everything of run() outside the loop is dropped",
+            "in this sandbox the driver runs against devshim/cachebox (TTLCache with expiry on lookup), not the compiled cachebox",
+        ],
+    },
 }
